@@ -100,12 +100,15 @@ def _match_finding(v: dict, findings: list[dict], pid: str):
     for f in findings:
         if f.get("property") != pid or f.get("status") != "open":
             continue
-        if not fnmatch.fnmatchcase(v["clause"], f.get("clause", "*")):
+        cl = f.get("clause", "*")
+        if not any(fnmatch.fnmatchcase(v["clause"], c) for c in ([cl] if isinstance(cl, str) else cl)):
             continue
         if not fnmatch.fnmatchcase(v["site"], f.get("site", "*")):
             continue
         mech = f.get("mechanism")
         if mech and mech not in v["tags"]:
+            continue
+        if any(t in v["tags"] for t in f.get("unless_tags", [])):
             continue
         return f
     return None
